@@ -67,7 +67,10 @@ def region_of_container(c):
 def load_parts(t):
     """(container region, index term) when t is a load of one element of a container"""
     if t and t[0] == "mem" and t[3] is not None:
-        c, i = elem_access(t[3])
+        a = t[3]
+        if a[0] == "addr" and len(a) == 3 and isinstance(a[2], tuple) and a[2] and a[2][0] == "elem":
+            a = a[2]            # a load through `let d = &mut c[i]`: the reference carries the element address
+        c, i = elem_access(a)
         return region_of_container(c), i
     return None, None
 
